@@ -1,7 +1,7 @@
 //! `NodeRegistry::load` / `NodeRegistry::from_json` on arbitrary file contents, and
 //! `load(save(registry)) == registry` (compared as JSON values; `NodeServiceData` has no `PartialEq`).
 
-use crate::common::{guarded, raw_bytes, Raw};
+use crate::common::{re, guarded, raw_bytes, Raw};
 use ant_bootstrap::PeersArgs;
 use ant_evm::{AttoTokens, EvmNetwork, RewardsAddress};
 use ant_logging::LogFormat;
@@ -78,8 +78,8 @@ pub fn node_spec() -> BoxedStrategy<NodeSpec> {
         0u8..3,
         0u8..4,
         any::<u8>(),
-        proptest::option::of(prop_oneof![Just(String::new()), "[a-z0-9_.]{1,12}".boxed(), "\\PC{1,6}".boxed()]),
-        prop_oneof![Just("0.1.0".to_string()), Just(String::new()), "[0-9]{1,3}\\.[0-9]{1,3}\\.[0-9]{1,3}(-rc\\.[0-9])?".boxed()],
+        proptest::option::of(prop_oneof![Just(String::new()), re("[a-z0-9_.]{1,12}"), re("\\PC{1,6}")]),
+        prop_oneof![Just("0.1.0".to_string()), Just(String::new()), re("[0-9]{1,3}\\.[0-9]{1,3}\\.[0-9]{1,3}(-rc\\.[0-9])?")],
         proptest::option::of(prop_oneof![Just(0u8), Just(1), Just(255), any::<u8>()]),
         proptest::option::of(prop_oneof![Just(0u64), Just(1), Just(u32::MAX as u64), Just(u64::MAX >> 11)]),
     );
@@ -258,7 +258,7 @@ fn replacement() -> BoxedStrategy<String> {
     prop_oneof![
         6 => (0..R.len()).prop_map(|i| R[i].to_string()),
         1 => any::<i64>().prop_map(|v| v.to_string()),
-        1 => "[ -~]{0,10}".prop_map(|s| serde_json::to_string(&s).unwrap()),
+        1 => re("[ -~]{0,10}").prop_map(|s| serde_json::to_string(&s).unwrap()),
         1 => Just(format!("\"{}\"", "9".repeat(400))),
         1 => Just("9".repeat(400)),
     ]
@@ -278,7 +278,7 @@ pub fn strategy() -> BoxedStrategy<RegCase> {
         1 => (1usize..3000).prop_map(|n| format!("{}{}", "{\"nodes\":".repeat(n), "1").into_bytes()),
     ]
     .prop_map(|b| RegCase::Bytes { content: Raw::of(&b) });
-    let env = proptest::option::of(proptest::collection::vec(("[A-Z_]{0,6}", "\\PC{0,6}"), 0..3));
+    let env = proptest::option::of(proptest::collection::vec((re("[A-Z_]{0,6}"), re("\\PC{0,6}")), 0..3));
     let saved = (
         proptest::collection::vec(node_spec(), 0..4),
         env,
